@@ -447,6 +447,32 @@ func c13R7(e *Engine) {
 			}
 		})
 	}
+	// … and a definition is never REMOVED from a table that exists: the key derivation needs the declared type of the
+	// table's own key attributes (an index that is dropped may share an attribute with the table key or another index)
+	for _, fn := range e.funcs("core") {
+		instrs(fn, func(in ssa.Instruction) {
+			c, ok := in.(*ssa.Call)
+			if !ok || staticCalleeName(c) != "builtin.delete" {
+				return
+			}
+			if lf, _ := loadedField(c.Call.Args[0]); lf != f {
+				return
+			}
+			n++
+			e.fail("R7", e.fname(fn)+":attribute-definition-removed", e.ipos(in), "an attribute definition is deleted from an existing table: when the attribute is (also) a key attribute of the table or of a remaining index its declared type is gone, every request that names the key is rejected (invalid attribute value type) and the stored items are unreachable")
+		})
+		instrs(fn, func(in ssa.Instruction) {
+			st, ok := in.(*ssa.Store)
+			if !ok || fieldOf(st.Addr) != f {
+				return
+			}
+			if originIsLocalAlloc(st.Addr.(*ssa.FieldAddr).X) {
+				return // constructor
+			}
+			n++
+			e.fail("R7", e.fname(fn)+":attribute-definitions-replaced", e.ipos(in), "the attribute definitions of an existing table are replaced wholesale")
+		})
+	}
 	if n == 0 {
 		e.undecided("R7", "core:attribute-definitions", "-", "no write into Table.AttributesDef found")
 	}
